@@ -301,6 +301,26 @@ def _culprit(i, s):
     return s
 
 
+def _has_wide_name(s):
+    if s[0] == "id":
+        return any(ord(c) > 255 for c in s[1])
+    return any(_has_wide_name(c) for c in children(s))
+
+
+def _deepest(s, bad):
+    """deepest sub-spec (first such child at every level) for which bad() still holds"""
+    while True:
+        for c in children(s):
+            try:
+                if bad(c):
+                    s = c
+                    break
+            except Exception:
+                continue
+        else:
+            return s
+
+
 def check_spec(s, counters=None):
     """All per-expression oracles on one spec."""
     vs = []
@@ -320,10 +340,12 @@ def check_spec(s, counters=None):
         vs.append(violation("hash:differs-for-equal:%s" % skel(s), "hash of %r differs between equal builds" % (e1,), case))
     got = to_spec(e1)
     if got != ns:
-        vs.append(violation("components:%s" % skel(s), "%r reports components %r, expected %r" % (e1, got, ns), case))
+        cul = _deepest(ns, lambda x: to_spec(build(x)) != norm(x))
+        vs.append(violation("components:%s" % skel(cul), "%r reports components %r, expected %r" % (e1, got, ns), case))
     want_size = size_of(ns)
     if e1.size != want_size:
-        vs.append(violation("size:%s" % skel(s), "%r has size %r, components give %r" % (e1, e1.size, want_size), case))
+        cul = _deepest(ns, lambda x: build(x).size != size_of(norm(x)))
+        vs.append(violation("size:%s" % skel(cul), "%r has size %r, components give %r" % (e1, e1.size, want_size), case))
     # one-component neighbours
     for comp, m in neighbours(ns):
         try:
@@ -347,9 +369,13 @@ def check_spec(s, counters=None):
     # canonize
     try:
         c = e1.canonize()
-    except Exception:
-        if counters is not None:
-            counters["canonize_raised"] += 1
+    except Exception as ex:
+        if _has_wide_name(ns):
+            # the ordering used by canonize() converts names to bytes and asserts latin-1: outside the property text, counted
+            if counters is not None:
+                counters["canonize_raised"] += 1
+        else:
+            vs.append(violation("canonize:raise:%s:%s" % (type(ex).__name__, skel(s)), "canonize(%r) raised %r" % (e1, ex), case))
     else:
         try:
             c2 = c.canonize()
